@@ -124,7 +124,7 @@ def open_sockets_to(w):
     return out
 
 
-def scenario(res, seq, use_vpc, segspec, pooling, failing, label=""):
+def scenario(res, seq, use_vpc, segspec, pooling, failing, label="", own_hasher=False):
     import logging
     logging.raiseExceptions = False     # the library's own logger.exception() call has a formatting slip; keep stderr quiet
     from pymemcache.client.ext.aws_ec_client import AWSElastiCacheHashClient
@@ -132,7 +132,7 @@ def scenario(res, seq, use_vpc, segspec, pooling, failing, label=""):
     from vk import driver
     w = World(driver.make_seg(segspec))
     viol = []
-    case = (seq, use_vpc, segspec, pooling, failing)
+    case = (seq, use_vpc, segspec, pooling, failing, "", own_hasher) if own_hasher else (seq, use_vpc, segspec, pooling, failing)
 
     def v(key, msg):
         viol.append((key, msg))
@@ -150,8 +150,13 @@ def scenario(res, seq, use_vpc, segspec, pooling, failing, label=""):
         try:
             # the flag as a bool or as the equivalent int (configuration files, environment variables)
             vpc_arg = (int(use_vpc) if (len(seq) + len(seq[0]) + int(pooling)) % 2 else use_vpc)
+            extra = {}
+            if own_hasher:
+                # a user-supplied hasher offering only the documented methods (add_node / remove_node / get_node)
+                from checks.c13 import ContractOnlyHasher
+                extra["hasher"] = ContractOnlyHasher
             client = AWSElastiCacheHashClient("%s:11211" % CFG, socket_module=w.net, use_vpc=vpc_arg, use_pooling=pooling,
-                                              retry_attempts=1, retry_timeout=10, dead_timeout=100, default_noreply=False)
+                                              retry_attempts=1, retry_timeout=10, dead_timeout=100, default_noreply=False, **extra)
         except Exception as e:
             v("constructor-raises:%s" % type(e).__name__, "constructor with advertised %r, seg %r raised %r" % (seq[0], segspec[0], e))
             return viol, case
@@ -297,7 +302,10 @@ def shard(tier, seed, idx, n):
             segspec = segs[work % len(segs)]
             pooling = (work // 5) % 2 == 1
             failing = ((work // 10) % 3 == 0 and len(seq) > 1) and (True if (work // 30) % 3 == 0 else 1 + (work // 30) % 3)
-            viol, case = scenario(res, seq, use_vpc, segspec, pooling, failing)
+            own = (work // 7) % 4 == 0
+            viol, case = scenario(res, seq, use_vpc, segspec, pooling, failing, own_hasher=own)
+            if own:
+                res.count("scenarios_with_a_user_supplied_hasher")
             removes = any(set(a) - set(b) for a, b in zip(seq, seq[1:]))
             nt = (seq, use_vpc, segspec[0], pooling, failing) if (removes or segspec[0] != "whole") else None
             res.case(nt, {"lists": seq, "use_vpc": use_vpc, "segmentation": segspec[0], "pooling": pooling, "failing_node_before": failing}
